@@ -43,7 +43,7 @@ RULE = (
     "Family grid: exhaustive product of 64 canonical server versions (components in {0,1,2,10}) + an undeclared "
     "server x {absent, the 64 canonical client versions, a fixed corpus of malformed strings (prerelease, build, "
     "leading zeros, edge/inner whitespace incl. trailing newline, sign, v-prefix, empty, 1/2/4 components, non-ASCII "
-    "digits, separators, huge), non-UTF-8 byte values} x {unary, stream, __describe__}; malformed entries that are "
+    "digits, separators, huge), canonical matching versions with a 4301- / 6000-digit patch, non-UTF-8 byte values} x {unary, stream, __describe__}; malformed entries that are "
     "templates are instantiated with the server's own version so they sit one edit away from an admitted value "
     "(quick tier: seeded 1/10 sample; thorough: all).  Family fuzz: Hypothesis — server version, client value "
     "derived from it by 0-2 edits (char insertion from a whitespace/sign/digit-lookalike alphabet, digit -> other "
@@ -328,6 +328,13 @@ def _check_message(out: Outcome, cls: dict, server: str, message: str, where: st
             )
 
 
+def _long_tag(cls: dict) -> str:
+    """Names the one admissible input class that is a recorded finding: a matching canonical version with a
+    component past CPython's default int-from-string limit (the server converts every component with int())."""
+    text = cls.get("text") or ""
+    return ":component_over_4300_digits" if any(len(c) > 4300 for c in text.split(".")) else ""
+
+
 def _judge_raw(out: Outcome, cls: dict, case: dict, obs: dict, where: str) -> None:
     method, shape, server = case["method"], case["params"], case["server"]
     tag = _reason_tag(cls)
@@ -350,7 +357,7 @@ def _judge_raw(out: Outcome, cls: dict, case: dict, obs: dict, where: str) -> No
     if cls["admit"]:
         if err is not None and err["kind"] == "protocol_version_mismatch":
             out.fail(
-                f"refused_when_admissible/{cls['reason']}/{site}",
+                f"refused_when_admissible/{cls['reason']}{_long_tag(cls)}/{site}",
                 f"server={server!r} client={case['client']!r} must be admitted but got: {err['message']!r}",
             )
             return
@@ -808,6 +815,10 @@ def _grid_clients(server: str | None) -> list[dict]:
     base = server if server is not None else "1.0.0"
     out: list[dict] = [{"k": "absent"}]
     out += [{"k": "text", "v": v} for v in _GRID_VERSIONS]
+    # canonical versions whose patch is longer than CPython's default int-from-string limit (4300 digits): still
+    # MAJOR.MINOR.PATCH, so admitted exactly when major.minor match
+    M0, m0, _p0 = base.split(".")
+    out += [{"k": "text", "v": f"{M0}.{m0}." + "7" * n} for n in (4301, 6000)]
     seen: set[str] = set()
     for t in _MALFORMED_TEMPLATES:
         s = _instantiate(t, base)
